@@ -456,7 +456,7 @@ TEXT_CORE = ["text_scaled<SI<i8,-4>>", "text_scaled<SI<i32,-30>>", "text_scaled<
              "text_integer<cnl::elastic_integer<20>>",
              # wide_integer beyond 128 bits (signed only: cnl::to_chars does not compile for unsigned multi-limb types)
              "text_wide<cnl::wide_integer<200>>", "text_wide<cnl::wide_integer<256, std::int32_t>>",
-             "text_wide<cnl::wide_integer<130, std::int8_t>>",
+             "text_wide<cnl::wide_integer<130, std::int8_t>>", "text_wide<cnl::wide_integer<133>>", "text_wide<cnl::wide_integer<196, std::int16_t>>",
              # integers whose arithmetic is not the built-in one (the digit loop divides and multiplies)
              "text_integer<cnl::rounding_integer<i32, cnl::nearest_rounding_tag>>",
              "text_integer<cnl::rounding_integer<i16, cnl::tie_to_pos_inf_rounding_tag>>",
